@@ -321,6 +321,9 @@ func TestReplay(t *testing.T) {
 	if sc, err := world.Load(f); err == nil && p == "C20" && len(sc.Case) > 0 {
 		c = Check{Prop: "C20", Exec: execC20Burst} // a case of TestC20Burst, not a request history
 	}
+	if sc, err := world.Load(f); err == nil && p == "C18" && len(sc.Case) > 0 {
+		c = Check{Prop: "C18", Exec: execC18Conc} // a case of TestC18Conc
+	}
 	Replay(t, c, f)
 }
 
